@@ -6,7 +6,7 @@
    *_model_ok : the timed model predicts the observation within the stated tolerance
    *_prop_ok  : the observation itself satisfies the property's predicate (limits taken from
                 the configuration by the property's own table, not from the model's state)   *)
-From G11 Require Export Timeouts.
+From G11 Require Export Timeouts RateLimit.
 Open Scope Z_scope.
 
 Record tcase := {
@@ -71,16 +71,21 @@ Record acase := {
   a_base : Z;             (* latency of the same probe without stalled peers *)
   a_cap : Z;              (* a probe gives up after this long *)
   a_lead : Z;             (* the probe started this long after the peers had connected *)
+  a_rate : Z;             (* --read-limit / --write-limit of the listener, bytes per second; 0 = none *)
   a_tol : Z
 }.
 
 Definition stalled_peer (in_pp : bool) : peer := mkpeer 0 (if in_pp then None else Some 0).
 
-(* predicted extra latency of the probe = its hand-off time minus its arrival *)
+(* size of the probe's request, bytes (only matters when the bucket is within a request of empty) *)
+Definition probe_bytes : Z := 256.
+
+(* predicted extra latency of the probe = its hand-off time minus its arrival, plus - on a rate-limited
+   listener - the wait of its first read behind the tokens the parked peers hold (RateLimit.v) *)
 Definition predicted_delay (a : acase) : option Z :=
   let ps := repeat (stalled_peer (a_peer_in_pp a)) (N.to_nat (a_n a)) ++ [mkpeer (a_lead a) (Some 0)] in
   match last (serve (a_cfg a) ps) None with
-  | Some t => Some (t - a_lead a)
+  | Some t => Some (t - a_lead a + parked_delay ratelimit_read_prog (a_rate a) (N.to_nat (a_n a)) probe_bytes)
   | None => None
   end.
 
